@@ -942,3 +942,19 @@ pub fn flag_cycle() -> Program {
         root0: None,
     }
 }
+
+/// C18: a monotone cycle whose head calls its partner only in the first iteration (the call
+/// depends on the head's own provisional value): the partner's memo from that iteration must
+/// not survive as a final result.
+pub fn vdep_cycle(kind: Kind) -> Program {
+    Program {
+        name: format!("vdepcyc-{kind:?}"),
+        cells: vec![(1, Dur::Low), (0, Dur::Low)],
+        nodes: vec![
+            NodeDef::new(kind, Ex::iff(Ex::and(call(0), k(4)), k(7), Ex::or(call(1), k(4)))),
+            NodeDef::new(kind, Ex::or(call(0), k(2))),
+        ],
+        ext: vec![0],
+        root0: None,
+    }
+}
